@@ -42,3 +42,10 @@ def bucket_add(buckets, m, k):
     b = buckets[m]
     b[k] = 1
     return buckets
+
+
+def overlap(a, b):
+    if a & b:
+        return 1
+    return 0
+
